@@ -161,6 +161,14 @@ func intrinsic(ex *Exec, st *State, site ssa.Instruction, fn *ssa.Function, args
 	case "Known":
 		ex.Known = append(ex.Known, KnownPred{ID: concreteStrArg(args[0], name), Pred: smt.And(st.pc, args[1].(*smt.Term))})
 		return nil
+	case "TOMLBytesFail":
+		iv, ok := args[0].(*IfaceV)
+		if !ok {
+			panic(unsupported("TOMLBytesFail needs a pointer to the decoded struct"))
+		}
+		ex.Decoded = iv.V
+		ex.DecodeFailKind = smt.Extract(args[1].(*smt.Term), 7, 0)
+		return ex.strToBytes(st, ConcreteStr("<toml>"))
 	case "TOMLBytes":
 		// registers the decoded value for the decoder stubs and returns placeholder bytes
 		iv, ok := args[0].(*IfaceV)
@@ -593,6 +601,12 @@ func registerTomlStubs(ex *Exec) {
 	decode := func(ex *Exec, st *State, site ssa.Instruction, target Value) Value {
 		// the library either fails or leaves an arbitrary value of the target type: the harness supplies that value
 		fail := ex.freshBool("toml_decode_fails")
+		var isDecodeErr *smt.Term = ex.freshBool("toml_error_is_decode_error")
+		if ex.DecodeFailKind != nil {
+			// the harness chose: 0 decodes, 1 syntax/type error (*toml.DecodeError), 2 strict-mode error (unknown field)
+			fail = smt.Not(smt.Eq(ex.DecodeFailKind, smt.Const(8, 0)))
+			isDecodeErr = smt.Eq(ex.DecodeFailKind, smt.Const(8, 1))
+		}
 		if ex.Decoded == nil {
 			panic(unsupported("toml decode without a registered decoded value (verifrt.TOMLBytes)"))
 		}
@@ -613,7 +627,58 @@ func registerTomlStubs(ex *Exec) {
 		ex.guarded(st, smt.Not(fail), func(st *State) {
 			st.heap[dst.Obj] = ex.setPath(ex.get(st, dst.Obj), dst.Path, ex.load(st, site, src))
 		})
-		return mergeV(fail, &IfaceV{T: nil, V: ex.newOpaque("error")}, Nil)
+		errOp := ex.newOpaque("error")
+		errOp.Data["decodeErr"] = isDecodeErr
+		return mergeV(fail, &IfaceV{T: nil, V: errOp}, Nil)
+	}
+	S["errors.As"] = func(ex *Exec, st *State, site ssa.Instruction, fn *ssa.Function, args []Value) Value {
+		// only the go-toml error kinds are modelled: a decoder failure is or is not a *toml.DecodeError
+		tgt, ok := args[1].(*IfaceV)
+		if !ok {
+			panic(unsupported("errors.As target"))
+		}
+		tp, ok := tgt.V.(*PtrV)
+		if !ok || tgt.T == nil || !strings.Contains(tgt.T.String(), "DecodeError") {
+			panic(unsupported("errors.As with a target other than **toml.DecodeError"))
+		}
+		var is *smt.Term = smt.False
+		var walk func(e Value) *smt.Term
+		walk = func(e Value) *smt.Term {
+			switch x := e.(type) {
+			case *ChoiceV:
+				return smt.Ite(x.C, walk(x.A), walk(x.B))
+			case *IfaceV:
+				if ch, ok := x.V.(*ChoiceV); ok {
+					return smt.Ite(ch.C, walk(&IfaceV{T: x.T, V: ch.A}), walk(&IfaceV{T: x.T, V: ch.B}))
+				}
+				if op, ok := x.V.(*Opaque); ok {
+					if d, ok := op.Data["decodeErr"].(*smt.Term); ok {
+						return d
+					}
+					if w, ok := op.Data["wrapped"]; ok {
+						return walk(w)
+					}
+				}
+			}
+			return smt.False
+		}
+		is = walk(args[0])
+		de := ex.newOpaque("tomlDecodeError")
+		ex.guarded(st, is, func(st *State) { ex.store(st, site, tp, de) })
+		return is
+	}
+	for _, m := range []string{"Position", "Key", "String", "Error"} {
+		m := m
+		S["(*github.com/pelletier/go-toml/v2.DecodeError)."+m] = func(ex *Exec, st *State, site ssa.Instruction, fn *ssa.Function, args []Value) Value {
+			return ex.withChoice(st, args[0], func(st *State, r Value) Value {
+				if _, isNil := r.(*NilV); isNil {
+					ex.outcome("panic", "nil pointer dereference (method "+m+" of a nil *toml.DecodeError)", site, st.pc)
+					st.kill()
+					return nil
+				}
+				return ex.zeroResult(fn)
+			})
+		}
 	}
 	S["(*github.com/pelletier/go-toml/v2.Decoder).Decode"] = func(ex *Exec, st *State, site ssa.Instruction, fn *ssa.Function, args []Value) Value {
 		return decode(ex, st, site, args[1])
